@@ -271,6 +271,9 @@ func gen(r *hx.Rand, tier string) []json.RawMessage {
 	for i := 0; i < nScripts; i++ {
 		out = append(out, hx.J(scriptIn{Kind: "script", Script: *c06.GenScript(r)}))
 	}
+	for _, k := range []string{"ideal", "wb", "banked"} { // directed: contended connection
+		out = append(out, hx.J(libIn{Kind: "lib", Cfg: asm.ContendedConfig(r, k, nops)}))
+	}
 	for i := 0; i < nLib; i++ {
 		out = append(out, hx.J(libIn{Kind: "lib", Cfg: asm.GenConfig(r, asm.Kinds[i%len(asm.Kinds)], nops)}))
 	}
